@@ -27,6 +27,19 @@ class _Rewrite(ast.NodeTransformer):
             return ast.copy_location(ast.Name("_vf_sorted", ast.Load()), node)
         return node
 
+    def visit_BinOp(self, node):
+        # set algebra on dict views (a.keys() & b.keys(), a.items() - b.items(), ...) yields a real set whose
+        # iteration order follows the hash seed as well
+        self.generic_visit(node)
+
+        def is_view(n):
+            return isinstance(n, ast.Call) and isinstance(n.func, ast.Attribute) and n.func.attr in ("keys", "items") and not n.args
+
+        if isinstance(node.op, (ast.BitAnd, ast.BitOr, ast.Sub, ast.BitXor)) and (is_view(node.left) or is_view(node.right)):
+            self.count += 1
+            return ast.copy_location(ast.Call(ast.Name("_vf_ndset", ast.Load()), [node], []), node)
+        return node
+
     def visit_Set(self, node):
         self.generic_visit(node)
         self.count += 1
